@@ -4,7 +4,7 @@ import LenaModel.Model.C09
   {"el": EL, "ops": [OP, ...]}  ->  {"obs": [OBS, ...]} (+ "prec": n for dsum) | {"init_err": "LenaValueError"|...}
   EL:  {"k":"count","name":s,"count0":i} | {"k":"sum","total0":i} | {"k":"dsum","total0":[coef,exp]}
      | {"k":"mean","seq":b,"poe":b} | {"k":"meand","poe":b} (Mean(DSum()), data [m,e]) | {"k":"vmc","corrected":b,"poe":b} | {"k":"store","group":b} | {"k":"groupby"}
-     | {"k":"vec","inner":EL(count|sum|mean|vmc|store),"list":b,"nseq":n,"dim":n|null}
+     | {"k":"vec","inner":EL(count|sum|mean|vmc|store),"list":b,"nseq":n,"dim":n|null,"mul":k|null}
      | {"k":"hist","edges":[i],"bins":[i]|null,"make_bins":[i]|null,"iv":i}
      | {"k":"graph","scale0":i|null,"sort":b,"reset_scale":b}
   OP:  {"o":"f","v":VALUE} | {"o":"c"} | {"o":"r"}
@@ -88,6 +88,10 @@ def runVec {σ ο : Type} (m : Machine σ (Item Int) ο) (enc : ο → Json) (el
     match mkVectorizeDim isList nseq dim with
     | .error e => Json.mkObj [("init_err", errName e)]
     | .ok n =>
+      -- "mul": k  =  every component is `FillComputeSeq(lambda x: k*x, inner)` (k = 1: `FillComputeSeq(inner)`)
+      let m := match int? (getD el "mul") with
+        | some k => mapDataM (· * k) m
+        | none => m
       let vm := vectorizeM m n
       -- a list of `n` sequences: `init` has exactly `n` copies (`max n 1` differs only for the empty list)
       let vm := if isList && n == 0 then { vm with init := ⟨[], []⟩ } else vm
